@@ -41,6 +41,9 @@ package closest
 //@     invariant !failed(w)
 //@   loop 4:
 //@     invariant !failed(w)
+//@   # C06 (--table): one row per (query, neighbour) in catchment order: query, target, distance (integer for snp, 9 decimals otherwise)
+//@   after call:Write#2: assert [row.snp] result == results[range_i1] && hit == result.catchment[range_i] && written(w)[len(written(w))-1] == result.qname + "," + hit.tname + "," + itoa(int(hit.distance)) + "\n"
+//@   after call:Write#3: assert [row.float] result == results[range_i3] && hit == result.catchment[range_i] && written(w)[len(written(w))-1] == result.qname + "," + hit.tname + "," + fmtfloat(hit.distance) + "\n"
 //@   ensures [c19] implies(result == nil, !failed(w))
 
 //@ # C07: the per-column classification on encoded symbols. disjoint(a,b) = (a&b) < 16; same resolved base = a&8==8 && a==b.
